@@ -755,9 +755,9 @@ func CanonicalIsomorphAllocated(n, m int, neighbours [][]int, op *CanonicalOrder
 
 				}
 
-				//Do the same for the currentBest
+				//Do the same for the currentBest unless we are also on the path to the first leaf. The orbits of the first leaf contain the orbits of the current best and the representatives (roots) of the two sets of orbits differ, so skipping the non-roots of both can skip every vertex of an orbit.
 				//Heuristic 2
-				if count > 0 && ints.HasPrefix(currentBestPath, path[:len(path)-1]) {
+				if count > 0 && !ints.HasPrefix(firstLeafPath, path[:len(path)-1]) && ints.HasPrefix(currentBestPath, path[:len(path)-1]) {
 					if currentBestOrbits[choiceElement] >= 0 {
 						skipDeage = true
 						continue jLoop
